@@ -8,6 +8,7 @@ package main
 // one Content-Length = body length, body bytes.
 
 import (
+	"fmt"
 	"strings"
 	"testing"
 
@@ -64,7 +65,7 @@ func c01Classes(m *AMsg, path string, tcpIn bool, at labRx) {
 func TestC01(t *testing.T) {
 	V.Rule("lab: well-formed requests (any method token; sip/sips/tel/urn Request-URI with users, passwords, ports, valued/valueless parameters, URI headers) and responses (100-699), 0-40 extension headers (token names incl. compact/odd-case/repeated; values empty, long around the 4096/8192/16384 windows, rich in % \" ; , < > = : @ ?, UTF-8, invalid UTF-8, NUL/TAB, white-space-like runes at the edges), any From/To/Call-ID/CSeq, bodies 0-60 KiB of arbitrary bytes, drawn header-name spelling, list layout and header interleaving; relayed over the four paths (backend, Route, static route, response by Via), UDP and TCP ingress/egress, listen entries with different settings; output read by the independent reader. non-trivial = >= 1 extension header and (a value with a non-token byte or > 4096 bytes, or a non-canonical spelling, or a non-empty body); distinct by input bytes + path")
 	V.Assume("outside the domain and not generated: folded lines, blanks before the colon, runs of blanks in the start line, messages without Content-Length, CR/LF inside values")
-	V.Require("path:backend", "path:route", "path:static", "path:response", "ingress:tcp", "ingress:udp", "egress:tcp", "egress:udp", "header line > 4096 bytes", "body has NUL/CR/LF", "non-canonical Content-Length spelling", "response or tel/urn Request-URI")
+	V.Require("pipelined over tcp", "path:backend", "path:route", "path:static", "path:response", "ingress:tcp", "ingress:udp", "egress:tcp", "egress:udp", "header line > 4096 bytes", "body has NUL/CR/LF", "non-canonical Content-Length spelling", "response or tel/urn Request-URI")
 	svc, err := newStdSvc(stdVariant{Keep: "", Default: false, NoReceived: [3]string{"", "true", ""}, MustRR: [3]string{"", "true", ""}})
 	if err != nil {
 		V.HarnessError(t, "cannot start lab instance: %v", err)
@@ -144,6 +145,108 @@ func TestC01(t *testing.T) {
 		for _, r := range res.Got {
 			if f := checkContent(rc.Msg, r.msg); f != "" {
 				failf(rt, "response path, arrived at %s: %s", r.where(), f)
+			}
+		}
+	})
+
+	// pipelined requests on one TCP connection (and bursts on one UDP socket):
+	// a message that waits in the proxy's queue while later ones are decoded
+	// must still be relayed with its own bytes
+	rcheck(t, "pipelined", V.N(60, 500), func(rt *rapid.T) {
+		s := pick(rt)
+		entry := rapid.IntRange(0, 1).Draw(rt, "entry")
+		l := s.in.cfg.Listens[entry]
+		tcp := rapid.IntRange(0, 2).Draw(rt, "tcp") > 0
+		k := rapid.IntRange(2, 14).Draw(rt, "requests")
+		var msgs []*AMsg
+		var wires [][]byte
+		total := 0
+		for i := 0; i < k; i++ {
+			maxBody := 6000
+			if !tcp {
+				maxBody = 2500
+			}
+			m := gAnyMsg(rt, fmt.Sprintf("m%d", i), anyOpts{MaxExt: 5, MaxLong: 0, MaxBody: maxBody})
+			m.IsReq, m.Method, m.RURI, m.Version = true, gMethod(rt, "method"), s.gServiceRURI(rt, "ruri", s.model.transport(entry, map[bool]string{true: "tcp", false: "udp"}[tcp])), "SIP/2.0"
+			if len(m.Body) == 0 && rapid.Bool().Draw(rt, "forcebody") {
+				m.Body = gBody(rt, "body2", maxBody)
+			}
+			var hs []AHdr
+			for _, h := range m.Hdrs {
+				switch h.Kind {
+				case hRoute:
+					continue
+				case hCallID:
+					h.Value = s.nextID("c01p-")
+				case hTo:
+					h.NAs = []ANameAddr{{URI: AURI{Scheme: "sip", User: "x", Host: "nomatch.example"}}}
+				case hCSeq:
+					h.Value = "1 " + m.Method
+				}
+				hs = append(hs, h)
+			}
+			m.Hdrs = hs
+			if total+len(m.Bytes()) > 50000 && !tcp {
+				break
+			}
+			total += len(m.Bytes())
+			msgs = append(msgs, m)
+			wires = append(wires, m.Bytes())
+		}
+		var send func([]byte) error
+		src := s.ip(13)
+		if tcp {
+			c, err := s.in.hub.dialTCP("pipeline", src, l.Addr, l.TCPPort)
+			if err != nil {
+				failf(rt, "TCP listener does not accept: %v", err)
+			}
+			defer c.close()
+			send = c.send
+		} else {
+			ua := s.uas[3]
+			send = func(b []byte) error { return ua.sendUDP(l.Addr, l.UDPPort, b) }
+		}
+		V.Journal(t.Name()+"/pipelined", map[string]any{"tcp": tcp, "requests": len(msgs), "bytes": total})
+		for _, m := range msgs {
+			s.model.learnRequest(s.model.transport(entry, map[bool]string{true: "tcp", false: "udp"}[tcp]), src, m)
+		}
+		s.in.expect(wires...)
+		if tcp {
+			// all of them in one write: they arrive pipelined
+			var all []byte
+			for _, w := range wires {
+				all = append(all, w...)
+			}
+			if err := send(all); err != nil {
+				V.HarnessError(rt, "send: %v", err)
+			}
+		} else {
+			for _, w := range wires {
+				send(w)
+			}
+		}
+		rs, err := s.in.settle(send, len(msgs))
+		if _, lost := err.(labLost); lost {
+			failf(rt, "%v", err)
+		} else if err != nil {
+			V.HarnessError(rt, "%v", err)
+		}
+		got := labMessages(rs)
+		V.Class("path:pipelined")
+		V.ClassIf(tcp, "pipelined over tcp")
+		V.NonTrivial(fmt.Sprintf("pipelined|%v|%x", tcp, hash64(string(wires[0]))))
+		byID := map[string][]labRx{}
+		for _, r := range got {
+			id, _ := r.msg.First(hCallID)
+			byID[id] = append(byID[id], r)
+		}
+		for i, m := range msgs {
+			rs := byID[m.First(hCallID).Value]
+			if len(rs) != 1 {
+				failf(rt, "request %d of %d pipelined requests (tcp=%v) was relayed %d times", i+1, len(msgs), tcp, len(rs))
+			}
+			if f := checkContent(m, rs[0].msg); f != "" {
+				failf(rt, "request %d of %d pipelined requests (tcp=%v): %s", i+1, len(msgs), tcp, f)
 			}
 		}
 	})
